@@ -16,7 +16,7 @@ RULE = (
     "zeros in the stripped coordinate, negative entries and 6 orders of magnitude. evaluations = A+B+C; distinct_nontrivial = distinct (model "
     "kind, dimension, sources, monitor) cells with |mean xi| > 1e-3 before the call (A) or a non-trivial mixing matrix (B)"
 )
-REQUIRED = {"recentre_calls": 300, "recentre_in_fit": 100, "ortho_states": 300, "ortho_direct": 300, "recentre_joint": 20, "ortho_shared_speed": 20}
+REQUIRED = {"recentre_calls": 300, "recentre_in_fit": 100, "ortho_states": 300, "ortho_direct": 300, "recentre_joint": 20, "ortho_shared_speed": 20, "two_event_joint_cases": 2}
 ASSUMPTIONS = [
     "float32 exp/log round trip: trajectories compared at 1e-5 absolute, attachment terms at 1e-5 relative (+1e-5 absolute); orthogonality "
     "residual judged relative to |a| |G d| at 1e-5 (measured 4e-8 on the unchanged tree)",
@@ -142,7 +142,8 @@ def run_shard(spec, ctx):
     GRID = [("logistic", 2, 1, "gaussian-diagonal"), ("logistic", 3, 0, "gaussian-scalar"), ("logistic", 4, 2, "gaussian-diagonal"),
             ("linear", 3, 1, "gaussian-diagonal"), ("linear", 2, 0, "gaussian-scalar"), ("joint", 1, 0, None), ("joint", 3, 1, None),
             ("joint", 4, 2, None), ("mixture_logistic", 3, 2, None), ("shared_speed_logistic", 3, 1, None), ("shared_speed_logistic", 5, 3, None),
-            ("logistic", 8, 5, "gaussian-diagonal"), ("logistic", 6, 1, "gaussian-scalar"), ("linear", 7, 6, "gaussian-diagonal")]
+            ("logistic", 8, 5, "gaussian-diagonal"), ("logistic", 6, 1, "gaussian-scalar"), ("linear", 7, 6, "gaussian-diagonal"),
+            ("joint", 3, 1, "events2"), ("joint", 1, 0, "events2")]  # "events2": joint model with two competing events
     if kind == "fit":
         from leaspy.exceptions import LeaspyConvergenceError
         from vf.checks.c04 import fit_with_probe
@@ -151,15 +152,19 @@ def run_shard(spec, ctx):
             rng = ctx.rng("fit", spec["k"], i)
             g = GRID[(spec["k"] * 3 + i) % len(GRID)]
             if g[0] == "shared_speed_logistic":
-                g = GRID[(spec["k"] + i) % 9]
+                g = (GRID[:9] + GRID[-2:])[(spec["k"] + i) % 11]
             knd, dim, src, noise = g
             events = knd == "joint"
             current_case.clear()
             current_case.update({"index": i, "model": list(map(str, g)), "in_fit": True})
             try:
-                df = gen.cohort(rng, n_ind=int(rng.integers(4, 10)), n_feat=dim, missing="mcar", events=events, one_visit_ok=not events)
-                ds = gen.to_dataset(df, events=events)
-                kw = {"n_clusters": 2} if knd == "mixture_logistic" else {}
+                nb_ev = 2 if noise == "events2" else 1
+                df = gen.cohort(rng, n_ind=int(rng.integers(5, 10)), n_feat=dim, missing="mcar", events=events, one_visit_ok=not events, nb_events=nb_ev)
+                ds = gen.to_dataset(df, events=events, nb_events=nb_ev)
+                kw = {"n_clusters": 2} if knd == "mixture_logistic" else ({"nb_events": 2} if nb_ev == 2 else {})
+                if nb_ev == 2:
+                    noise = None
+                    ctx.count("two_event_joint_cases")
                 model = gen.make_model(knd, dim, src, noise, **kw) if noise else gen.make_model(knd, dim, src, **kw)
                 model.initialize(ds)
             except Exception:
